@@ -347,4 +347,6 @@ def run(ctx, R):
     from psa import sqlshape
     n = sqlshape.shape_rule(ctx, R, 'R12.6', [
         'placement.objects.consumer:delete_consumers_if_no_allocations'])
-    R.count('R12.6', n, 1)
+    n += sqlshape.shape_rule(ctx, R, 'R12.6', [
+        'placement.objects.consumer:_delete_consumer'])
+    R.count('R12.6', n, 2)
